@@ -38,6 +38,9 @@ pub struct Caller {
     pub clone: u8,
     pub step: Step,
     pub cancel_after: Option<u64>,
+    /// after readiness, create the call future and drop it without ever polling it
+    #[serde(default)]
+    pub drop_unpolled: bool,
 }
 
 #[derive(Clone, Debug, Serialize, Deserialize)]
@@ -108,12 +111,14 @@ fn case_strategy(tier: Tier) -> BoxedStrategy<AdaptiveCase> {
             2 => (1u64..=8).prop_map(|k| Some(k * 10)),
             2 => (1u64..=90).prop_map(Some),
         ],
+        prop::bool::weighted(0.12),
     )
-        .prop_map(|(at, clone, step, cancel_after)| Caller {
+        .prop_map(|(at, clone, step, cancel_after, drop_unpolled)| Caller {
             at,
             clone,
             step,
             cancel_after,
+            drop_unpolled,
         });
     let sim_case = (
         any::<bool>(),
@@ -349,6 +354,7 @@ async fn run_sim_generic<A: ConcurrencyAlgorithm + 'static>(
     let pending_flag = Arc::new(Mutex::new(false));
     let mut saw_drop_running = false;
     let mut saw_panic = false;
+    let mut saw_unpolled_drop = false;
     let probe = base.clone();
 
     for t in 0..=horizon {
@@ -366,6 +372,10 @@ async fn run_sim_generic<A: ConcurrencyAlgorithm + 'static>(
                     key: 0,
                     tag: 0xAD00 + i as u64,
                 };
+                let drop_unpolled = c.drop_unpolled;
+                if drop_unpolled {
+                    saw_unpolled_drop = true;
+                }
                 let fut = async move {
                     // readiness, checked against the ground truth at every poll
                     futures::future::poll_fn(|cx| {
@@ -401,7 +411,13 @@ async fn run_sim_generic<A: ConcurrencyAlgorithm + 'static>(
                         res
                     })
                     .await?;
-                    svc.call(req).await
+                    let call = svc.call(req);
+                    if drop_unpolled {
+                        // the future is discarded before its first poll
+                        drop(call);
+                        return Err(AdaptiveError::LimitReached);
+                    }
+                    call.await
                 };
                 task[i] = Some(sim.spawn_call(fut, map_outcome));
             }
@@ -487,9 +503,12 @@ async fn run_sim_generic<A: ConcurrencyAlgorithm + 'static>(
     if saw_panic {
         classes.push("in_flight_call_panicked");
     }
+    if saw_unpolled_drop {
+        classes.push("call_future_dropped_unpolled");
+    }
     SimVerdict {
         violations: v,
-        nontrivial: saw_drop_running || saw_panic,
+        nontrivial: saw_drop_running || saw_panic || saw_unpolled_drop,
         classes,
         log: snap,
     }
